@@ -146,7 +146,7 @@ def fairRun (cap : Nat) (f : P → R) (s : State P R) (as : List (Action P)) : B
 /-! ### observed traces -/
 
 /-- what the harness sees from outside the server: `put` called, a parked `put` returning, an
-    item leaving the queue, the model being invoked on n rows, the model call returning -/
+    item leaving the queue, the model being invoked (on n rows, not checked), the model call returning -/
 inductive Event where
   | arrive (id : Nat) (toks : List Nat)
   | enter (id : Nat)
@@ -178,12 +178,13 @@ def checkEvent (cap : Nat) (f : List Nat → R) (s : State (List Nat) R) :
           match step cap f s .take with
           | some s' => .ok s'
           | none => .error "take-while-model-running"
-  | .run n =>
-      if s.batch.length ≠ n then .error "run-rows-differ-from-taken"
-      else
-        match step cap f s .close with
-        | some s' => .ok s'
-        | none => .error "run-empty-or-model-running"
+  | .run _ =>
+      -- the number of rows the model call had is informational: de-duplicating or re-ordering
+      -- rows inside `run_model` is the implementation's business as long as every requester
+      -- gets the answer for its own position (judged on the deliveries, not here)
+      match step cap f s .close with
+      | some s' => .ok s'
+      | none => .error "run-empty-or-model-running"
   | .done =>
       match step cap f s .complete with
       | some s' => .ok s'
